@@ -1,5 +1,8 @@
 // mode `wire`: ONE real server in-process (one actor, one Metrics, HTTP + gRPC + RESP transports on
 // loopback) driven over real sockets (C12 fidelity, C09 cross-protocol sharing, C11 poison, C15).
+// The simple clients below use a connection per HTTP request, a channel per RPC, a RESP command per round trip; the
+// protocol-features rounds (feat.rs) address the same server over keep-alive / pipelined / chunked / HTTP/1.0
+// connections, one multiplexed gRPC channel with deadlines and cancellations, long RESP connections and pipelines.
 //
 // line (one per batch of sequential requests on keys that only this batch uses):
 //   atrace-loose <cap> <store> call:0:<i>:<id-fields>;proc:0:<i>:<resp>;ret:0:<i>:<resp>;...  -> ok <nproc>
@@ -64,6 +67,7 @@ pub enum Proto {
     Resp,
 }
 
+#[derive(Clone, Copy, Debug)]
 pub struct Ports {
     pub http: u16,
     pub grpc: u16,
@@ -702,7 +706,7 @@ pub fn large_keys(rng: &mut Rng, tag: &str, b: i64, c: i64, p: i64) -> Vec<(Stri
     v
 }
 
-fn parse_proc(l: &str) -> Option<(Vec<String>, String)> {
+pub fn parse_proc(l: &str) -> Option<(Vec<String>, String)> {
     let body = l.strip_prefix("proc ")?;
     let (id, resp) = body.split_once(" -> ")?;
     Some((id.split(':').map(|s| s.to_string()).collect(), resp.to_string()))
@@ -1208,6 +1212,35 @@ pub fn run(seed: u64, n: usize, out: &mut Out) {
         check_metrics(&ports, &metrics, &mut seen, out, "after the concurrency rounds", &mut recent).await;
 
         phase(out, "concurrency");
+        // ------------------------------------------------------------------ protocol features (feat.rs: C12, C09, C10, C11, C15)
+        // the same server addressed over keep-alive / pipelined / chunked / HTTP/1.0 connections, one multiplexed gRPC
+        // channel with deadlines and cancellations, long-lived RESP connections and pipelines
+        for round in 0..(n / 20).max(1) {
+            let header = format!("wire: protocol-features round {round} (server: store {store_token}, queue {cap})");
+            let mut fx = crate::feat::Fx::new(ports, rng.fork(), true, format!("ft{round}_"), header);
+            fx.empty_key = round == 0;
+            fx.heavy = round == 0;
+            fx.round = round;
+            fx.metrics = Some(Arc::clone(&metrics));
+            fx.run_all(out, (n / 40).max(1)).await;
+            let m = fx.moved();
+            seen.http += m.http;
+            seen.grpc += m.grpc;
+            seen.resp += m.resp;
+            seen.denied += m.denied;
+            seen.errors += m.errors;
+            // the limiter calls of the round as ONE trace for the model (every key of the round is fresh)
+            if fx.clean.get() && !fx.trace.is_empty() {
+                let line = fx.trace.join(";");
+                let nproc = line.matches(";proc:").count() + line.starts_with("proc:") as usize;
+                if line.len() < 2_000_000 {
+                    out.line(format!("atrace-loose {cap} {store_token} {line}"), format!("ok {nproc}"));
+                }
+            }
+            take_log();
+        }
+        check_metrics(&ports, &metrics, &mut seen, out, "after the protocol-features rounds", &mut recent).await;
+        phase(out, "features");
         // ------------------------------------------------------------------ long keys sharing a long prefix (C09, C12)
         for round2 in 0..2 * (n / 15).max(1) {
             let round = round2 / 2;
